@@ -292,6 +292,13 @@ SPECIAL = [
     'DIM arr1%(2), Total&\nDATA 4, 5, 6\nFOR idx% = 0 TO 2\n  READ arr1%(idx%)\n  Total& = Total& + arr1%(idx%)\nNEXT\nPRINT Total&\n'
     'SELECT CASE Total&\nCASE 15\n  PRINT "fifteen"\nCASE ELSE\n  PRINT "other"\nEND SELECT\n',
     'ON ERROR GOTO handler\nx% = 1 \\ zero%\nPRINT "after"\nEND\nhandler:\nPRINT ERR\nRESUME NEXT\n',
+    # identifiers that begin with a keyword, at the start of lines (a word that merely begins with REM, DATA, END, IF, FOR ... is an
+    # identifier): LET / colon / CALL rewritings move them away from and back to the line start
+    'remaining = 5\nremove% = 2\ndatum = remaining + remove%\nprinter$ = "p"\nendx = 1\niffy = 2\nfork = 3\nnextone = 4\ndox = 5\nloopy = 6\nelsewhere = 7\n'
+    'thenx = 8\nletter = 10\ncallme = 11\ndimly = 12\nonward = 13\ngotox = 14\nnotes = 2\nandy = 3\norb = 4\nmodx = 5\nstepper = 6\nasx = 7\ntox = 8\nremaining = remaining + 1\n'
+    'remover remaining\nCALL remover(datum)\nPRINT remaining; datum; printer$; endx; iffy; fork; nextone; dox; loopy; elsewhere\n'
+    'PRINT thenx; letter; callme; dimly; onward; gotox; notes; andy; orb; modx; stepper; asx; tox\nEND\n'
+    'SUB remover (x)\n  x = x + 1\n  remnant = x\n  PRINT remnant\nEND SUB\n',
 ]
 
 
